@@ -372,3 +372,12 @@ package pickle
 //@   ensures  keeps-its-memo: e.memo == old(e.memo)
 //@   ensures  memo-only-grows: forall k: value :: old(has(e.memo, k)) ==> has(e.memo, k)
 //@   modifies heap, olen, obytes
+
+// Decode, with its outcome named for callers that must propagate it (function.load, C15).
+//@ func (*pickle.Decoder).Decode variant counted
+//@   trusted
+//@   requires d != nil
+//@   ensures  value-or-error: result.1 != nil || result.0 != nil
+//@   ensures  n_decode == old(n_decode) + 1 && decode_failed == (result.1 != nil)
+//@   modifies heap, ipos, n_decode, decode_failed
+
